@@ -241,40 +241,34 @@ def scan_structure(yaml, text, lines):
     return entries, marks, outcome
 
 
+_QKEY = re.compile(r'''("(?:\\.|[^"\\])*"|'(?:[^']|'')*')[ ]*:(?=[ ]|$)''')
+_PKEY = re.compile(r'''(?:^|[ ])([^\s"'&!*\[\]{},:][^\s]{1000,}?):(?=[ ]|$)''')
+_PROPS = re.compile(r'''((?:[&!][^\s]*[ ]+)*)$''')
+
+
 def reject_class(text, e):
-    """why does the library's (Python) reader reject the text?  key item of clause-a violations only.
-    'simple key ... written characters' = the ':' of a key comes more than 1024 characters after the key's start, where the
-    scanner no longer takes it for a simple key; raw = length of the key scalar itself (the emitter's own rule admits a
-    simple key only below 128)"""
-    m = getattr(e, 'problem_mark', None)
-    problem = str(getattr(e, 'problem', '') or '')
-    if m is None or not (problem.startswith('mapping values are not allowed') or "got ':'" in problem or "expected ':'" in problem
-                         or 'could not find expected' in problem):
-        return 'other: ' + problem[:60]
-    lines = split_lines(text)
-    if m.line >= len(lines):
-        return 'other: ' + problem[:60]
-    prefix = lines[m.line][0][:m.column].rstrip(' ')
-    # the scalar that ends where the ':' stands
-    if prefix.endswith('"'):
-        i = len(prefix) - 2
-        while i >= 0 and not (prefix[i] == '"' and (len(prefix[:i]) - len(prefix[:i].rstrip('\\'))) % 2 == 0):
-            i -= 1
-        key = prefix[max(i, 0):]
-        toks = canon_lex(key)
-        raw = len(unhex(toks[0][1])) if toks and toks[0][0] == 'SCALAR' else len(key)
-    elif prefix.endswith("'"):
-        body = prefix[:-1].replace("''", '\0\0')
-        i = body.rfind("'")
-        key = prefix[max(i, 0):]
-        raw = len(key[1:-1].replace("''", "'"))
-    else:
-        i = max(prefix.rfind(x) for x in (', ', '{', '[', '? ', '- '))
-        key = prefix[i + 1:].lstrip(' ')
-        raw = len(key)
-    if len(key) <= 1000:
-        return 'other: ' + problem[:60]
-    return 'simple key of %s raw characters is longer than 1024 written characters' % ('< 128' if raw < 128 else '>= 128')
+    """why does the library's reader reject the text?  key item of clause-a violations only.  Looks in the TEXT (not at the
+    reader's message, which varies with what follows) for a mapping key written as a simple key - scalar directly followed by
+    ':' - whose written form, anchor and tag included, is longer than the 1024 characters after which the scanner no longer
+    takes it for a simple key; raw = length of the key scalar itself (the emitter's own rule admits simple keys below 128)."""
+    for line, _ in split_lines(text):
+        if len(line) <= 1024:
+            continue
+        for m in _QKEY.finditer(line):
+            props = _PROPS.search(line[:m.start()]).group(1)
+            if len(props) + len(m.group(1)) > 1024:
+                k = m.group(1)
+                if k[0] == '"':
+                    toks = canon_lex(k)
+                    raw = len(unhex(toks[0][1])) if toks and toks[0][0] == 'SCALAR' else len(k)
+                else:
+                    raw = len(k[1:-1].replace("''", "'"))
+                return 'simple key of %s raw characters is longer than 1024 written characters' % ('< 128' if raw < 128 else '>= 128')
+        for m in _PKEY.finditer(line):
+            props = _PROPS.search(line[:m.start(1)]).group(1)
+            if len(props) + len(m.group(1)) > 1024:
+                return 'simple key of >= 128 raw characters is longer than 1024 written characters'
+    return 'other: ' + str(getattr(e, 'problem', '') or '')[:60]
 
 
 def hexs(s):
